@@ -566,6 +566,53 @@ def spelled_case(item):
     return res
 
 
+def oddname_case(item):
+    """Targets whose names end or begin with white space (or contain it): the records that name them survive the viewer's
+    re-parsing - lines stay under the right name, the viewer does not stop, live and in the replay."""
+    _, j, seed = item
+    names = ['trail ', 'tab\t', ' lead', 'in ner', 'two  ', 'ü ']
+    files = {}
+    for i, n in enumerate(names):
+        files[n + '.do'] = scen.TRACE_HDR + 'echo "S $1 $$ $PPID" >&9\necho "odd%d#0 begin" >&2\necho "odd%d#1 end" >&2\necho x > "$3"\necho "E $1 $$ 0" >&9\n' % (i, i)
+    files['all.do'] = scen.TRACE_HDR + 'echo "S $1 $$ $PPID" >&9\necho "all#0" >&2\nredo-ifchange %s\necho "all#1" >&2\necho all > "$3"\necho "E $1 $$ 0" >&9\n' % ' '.join(sh_quote(n) for n in names)
+    pj = scen.Project(files, 'c18n')
+    anoms = []
+    obs = dict(builds=1, odd_name_cases=1)
+    try:
+        r, _ = pj.run(['redo', '-j%d' % j, 'all'], extra={'REDO_PRETTY': '0'}, timeout=60, verif_log=False)
+        text = r.err + r.out
+        if r.status != 'exit' or r.panicked():
+            return dict(verdict='inconclusive', why='build did not end normally (C09 matter)', sample=dict(item=list(item)))
+        if r.rc != 0:
+            anoms.append(dict(key='oddname:build-failed', what=text[-300:]))
+        if re.search(r'redo-log: .*not known to redo|redo-log: .*[Ee]rror|failed to start redo-log', text):
+            anoms.append(dict(key='live:viewer-error:names-with-outer-white-space', what='the log viewer gave up: %s' % [l for l in text.split('\n') if 'redo-log' in l][:2]))
+        r2, _ = pj.run(['redo-log', '-r', '--no-pretty', 'all'], verif_log=False, timeout=60)
+        streams = [('live', text)]
+        if r2.rc == 0:
+            streams.append(('replay', r2.out))
+        else:
+            anoms.append(dict(key='replay:viewer-error:names-with-outer-white-space', what='redo-log -r all exits %s: %s' % (r2.rc, (r2.err + r2.out)[-300:])))
+        for what, stream in streams:
+            per, recs, problems = attribute(stream)
+            for i, n in enumerate(names):
+                want = ['odd%d#0 begin' % i, 'odd%d#1 end' % i]
+                got = [g.rstrip() for g in per.get(n, [])]
+                if got != want and not any(a['key'].startswith(what) for a in anoms):
+                    under = [k for k, v in per.items() if any(('odd%d#' % i) in g for g in v)]
+                    anoms.append(dict(key='%s:lines-under-wrong-name:names-with-outer-white-space' % what,
+                                      what='target %r wrote %s; the %s output shows %s under that name (its lines appear under %r)' % (n, want, what, got, under)))
+            obs['odd_lines_attributed'] = obs.get('odd_lines_attributed', 0) + sum(len(v) for v in per.values())
+    finally:
+        pj.close()
+    res = dict(verdict='violated' if anoms else 'held', nontrivial=True, shape=common.shash(list(item)),
+               sample=dict(kind='names-with-outer-white-space', j=j), obs=obs, sets=dict(segments=['odd-names']))
+    if anoms:
+        res['violations'] = anoms[:4]
+        res['replay'] = dict(kind='oddname', item=list(item))
+    return res
+
+
 def direct_case(item):
     _, seed, n = item
     rnd = random.Random(seed)
@@ -669,6 +716,8 @@ def dispatch(item):
         return subdir_case(item)
     if item[0] == 'spelled':
         return spelled_case(item)
+    if item[0] == 'oddname':
+        return oddname_case(item)
     return direct_case(item) if item[0] == 'direct' else case(item)
 
 
@@ -679,7 +728,7 @@ RULE = ('generated graphs of 3-25 writer scripts (nested and shared children) at
         'top-level command and the output of `redo-log -r --no-pretty` (from the project top and from a sub-directory) are attributed to '
         'targets by the do/resumed/done records (a record may be glued to an unterminated line); for every script that ran to its end the '
         'attributed lines must equal the written ones exactly (after trailing-whitespace stripping), no id-ed line may appear under another '
-        'target, each executed target has one do and one done record with its exit status. Two-spellings layer: a dependency that writes to stderr is asked for from two directories through different spellings (x, ../x, absolute, detours, a symlinked name of the directory), the second request during or after its build: each of its lines appears once, under its own name, live and in the replay. Direct layer: format->parse round trips of the '
+        'target, each executed target has one do and one done record with its exit status. Two-spellings layer: a dependency that writes to stderr is asked for from two directories through different spellings (x, ../x, absolute, detours, a symlinked name of the directory), the second request during or after its build: each of its lines appears once, under its own name, live and in the replay. Odd-names layer: targets whose names end or begin with a blank or a tab: lines stay under the exact name, the viewer does not give up. Direct layer: format->parse round trips of the '
         'record type for the fixed kind vocabulary x pids x timestamps x texts (incl. "@@ ", "@@REDO:", ":", unicode), plus the same under '
         'Miri (thorough).')
 ASSUME = ['script output that contains a syntactically valid record is in-band forgery and is not generated', 'pretty mode is presentation and is not compared',
@@ -705,6 +754,9 @@ def main(tier):
             for first in ('a', 'sub/b'):
                 for rep in range(1 if quick else 4):
                     items.append(('spelled', spell, when, first, rnd.choice([2, 3, 4]), rep))
+    for j in (1, 3):
+        for rep in range(1 if quick else 5):
+            items.append(('oddname', j, rep))
     for i in range(40 if quick else 800):
         items.append(('hist', common.seed() * 100003 + (0 if quick else 50000) + i))
     for i in range(4 if quick else 60):
